@@ -1,2 +1,113 @@
+//! C35: replay TLC-generated strings / (name, remote) pairs (spec/MC_Quote)
+//! through the real escaping/formatting functions and back through the real
+//! revset and fileset parsers (the template parser lives in the cli crate:
+//! `jjcli verif-quote-template` adds that part).  Trace_Quote judges.
+use std::path::PathBuf;
+
+use jj_lib::dsl_util;
+use jj_lib::fileset;
+use jj_lib::fileset::FilePattern;
+use jj_lib::fileset::FilesetAliasesMap;
+use jj_lib::fileset::FilesetDiagnostics;
+use jj_lib::fileset::FilesetExpression;
+use jj_lib::fileset::FilesetParseContext;
+use jj_lib::repo_path::RepoPathUiConverter;
+use jj_lib::revset;
+use jj_lib::revset::ExpressionKind;
 use jjconf::util::Opts;
-pub fn run(_opts: &Opts) -> Result<(), String> { Err("todo".into()) }
+use jjconf::util::Out;
+use jjconf::util::catch;
+use jjconf::util::read_ndjson;
+use serde_json::Value;
+use serde_json::json;
+
+use crate::chartab::concretise;
+use crate::chartab::tokens;
+use crate::matchers::comps_of;
+
+fn bad() -> Value {
+    json!({"ok": false, "val": []})
+}
+
+fn revset_value(text: &str) -> Value {
+    match revset::parse_program(text) {
+        Ok(node) => match &node.kind {
+            ExpressionKind::String(v) => json!({"ok": true, "val": tokens(v), "node": "string"}),
+            ExpressionKind::Identifier(v) => json!({"ok": true, "val": tokens(v), "node": "identifier"}),
+            _ => json!({"ok": false, "val": [], "node": "other"}),
+        },
+        Err(_) => bad(),
+    }
+}
+
+fn fileset_value(quoted: &str) -> Value {
+    let aliases_map = FilesetAliasesMap::new();
+    let path_converter = RepoPathUiConverter::Fs {
+        cwd: PathBuf::from("/w"),
+        base: PathBuf::from("/w"),
+    };
+    let ctx = FilesetParseContext {
+        aliases_map: &aliases_map,
+        path_converter: &path_converter,
+    };
+    let text = format!("root-file:{quoted}");
+    match fileset::parse(&mut FilesetDiagnostics::new(), &text, &ctx) {
+        Ok(FilesetExpression::Pattern(FilePattern::FilePath(p))) => {
+            json!({"ok": true, "val": tokens(p.as_internal_file_string())})
+        }
+        _ => bad(),
+    }
+}
+
+fn one(case: &Value, i: usize) -> Result<Value, String> {
+    match case["t"].as_str().unwrap_or("?") {
+        "str" => {
+            let s = comps_of(&case["s"]);
+            let text = concretise(&s)?;
+            let escaped = dsl_util::escape_string(&text);
+            let quoted = revset::format_string(&text);
+            let symbol = revset::format_symbol(&text);
+            let sym = match revset::parse_symbol(&symbol) {
+                Ok(v) => json!({"ok": true, "val": tokens(&v)}),
+                Err(_) => bad(),
+            };
+            Ok(json!({"op":"str","i":i,"s":s,
+                "escaped":tokens(&escaped),
+                "revset":revset_value(&quoted),
+                "fileset":fileset_value(&quoted),
+                "symtext":tokens(&symbol),
+                "sym":sym,
+                "symexpr":revset_value(&symbol)}))
+        }
+        "pair" => {
+            let (n, r) = (comps_of(&case["n"]), comps_of(&case["r"]));
+            let text = revset::format_remote_symbol(&concretise(&n)?, &concretise(&r)?);
+            let back = match revset::parse_program(&text) {
+                Ok(node) => match &node.kind {
+                    ExpressionKind::RemoteSymbol(sym) => json!({"ok": true,
+                        "name": tokens(sym.name.as_str()), "remote": tokens(sym.remote.as_str())}),
+                    _ => json!({"ok": false, "name": [], "remote": []}),
+                },
+                Err(_) => json!({"ok": false, "name": [], "remote": []}),
+            };
+            Ok(json!({"op":"pair","i":i,"n":n,"r":r,"text":tokens(&text),"back":back}))
+        }
+        t => Err(format!("unknown case type {t}")),
+    }
+}
+
+pub fn run(opts: &Opts) -> Result<(), String> {
+    jjconf::util::quiet_panics();
+    let cases = read_ndjson(&opts.str("cases", "cases.ndjson"))?;
+    let mut out = Out::create(&opts.str("out", "trace.ndjson"))?;
+    for (i, c) in cases.iter().enumerate() {
+        let cc = c.clone();
+        match catch(move || one(&cc, i)) {
+            Ok(Ok(v)) => out.emit(&v),
+            Ok(Err(e)) => return Err(e),
+            Err(msg) => out.emit(&json!({"op":"panic","i":i,"case":c,"msg":msg})),
+        }
+    }
+    out.finish();
+    Ok(())
+}
